@@ -402,6 +402,11 @@ def curated() -> Dict[str, World]:
         "ifcreate-raw-dots", {"f": ["0", "1"], "u": ["0", "1"]},
         {"t.do": [S(ifcreate_raw=["f"], raw_prefix="nosuch/../", deps=["u"])], "top.do": [S(deps=["t"], out="file")]},
         ["top", "t"], ["top", "t"], absent=["f"])
+    W["ifcreate-under-file"] = World(   # the watched path lies "below" a regular file: it does not exist (and cannot, while that
+        # file is there); the user may replace that file by a directory, and then create the watched path in it
+        "ifcreate-under-file", {"u": ["0", "<dir>"], "u/x": ["0"], "w": ["0", "1"]},
+        {"t.do": [S(ifcreate_raw=["u/x"], deps=["w"])], "top.do": [S(deps=["t"], out="file")]},
+        ["top", "t"], ["top", "t"], absent=["u/x"])
     W["always3"] = World(
         "always3", {"s": ["0", "1"]},
         {"top.do": [S(deps=["d1", "d2", "d3"])], "d1.do": [S(deps=["a"])], "d2.do": [S(deps=["a"], out="file")],
